@@ -37,6 +37,9 @@ CHECKS = {
  "C10": dict(cat="exploration", engine="seq-exhaustive", tech="bounded-exhaustive enumeration of moduli classes x transform sizes x operand lengths x structured operands against exact integer / schoolbook references",
    text="Both convolution implementations on every transform size 2^1..2^10 (thorough 2^13) with all listed operand-length pairs, offsets and structured operand pairs, plus worst-case full-length operands up to 2^13 (thorough 2^16), for moduli on both sides of every Kronecker packing class edge and every word count; polynomial products (basic/Karatsuba/FFT) over all small length pairs straddling the thresholds, middle product, power-series quotient, from_roots, multi_eval, roots_eval against bnum schoolbook definitions.",
    note="Trusted: i128 integer convolution, bnum. Operands are structured (small signed patterns x residue multipliers, fixed pseudo-random residues), not all residues. multi_eval is driven inside its documented precondition (polynomial length at most the power of two above the point count).", ref="3/C10"),
+ "C11": dict(cat="model_checking", engine="seq-history", tech="explicit-state search over add-histories replayed on the real RelationSet (state = history), invariant on every state; final_step on reached states",
+   text="For 6 moduli an alphabet of 19 genuinely valid relations (complete, single- and double-large-prime, duplicates, chains, a cycle closer, a p=q square, reversed pairs, explicit even sign, factor 2) is built by CRT square roots; ALL sequences without repetition up to length 5 (thorough 6) and ALL sequences with repetition up to length 3 (4) are replayed on a fresh real store and every reached state is checked with independent arithmetic: published relations are true congruences with cofactor 1, the compact form decodes to the same congruence, pending partials/doubles are true congruences, the reverse index mirrors the doubles. final_step runs on the maximal states, on full-size sets and on all small subsets of relations of tiny moduli whose factors are in the base: only proper divisors, no panic.",
+   note="Trusted: harness u128 arithmetic and Tonelli/CRT construction (each alphabet relation re-verified). Histories longer than the bound and other large-prime topologies are outside.", ref="3/C11"),
 }
 
 NOT_APPLICABLE = {
@@ -85,6 +88,7 @@ def main():
             {"name": "seq-sweep", "path": "harness/src/sweep.rs", "serves_properties": ["C01", "C02", "C03"], "kind_free_text": "subprocess-sharded bounded-exhaustive driver of factor() with crash attribution"},
             {"name": "loom", "path": "lmharness/src/main.rs", "serves_properties": ["C04", "C05"], "kind_free_text": "loom (DPOR, preemption-bounded) exploration of the real code through the cfg-gated shim /repo/src/verif_shim.rs; one subprocess per scenario x bound; failing schedule saved as a loom checkpoint"},
             {"name": "seq-exhaustive", "path": "harness/src/", "serves_properties": ["C06", "C07", "C08", "C09", "C10", "C17"], "kind_free_text": "in-process bounded-exhaustive enumerators with reference models (harness/src/refmodel.rs), parallel over 16 cores, panics captured per case"},
+            {"name": "seq-history", "path": "harness/src/c11.rs", "serves_properties": ["C11"], "kind_free_text": "explicit-state history search on real objects (fresh object per history, DFS sharded over 16 cores, canonical state hash for counting)"},
             {"name": "seq-fault", "path": "harness/src/c05.rs", "serves_properties": ["C05"], "kind_free_text": "exhaustive abort-instant enumeration on the real factor()/classgroup()"},
         ],
         "checks": checks,
